@@ -56,8 +56,9 @@ SIZES = {
     'C09': {'quick': {'s1': 320, 'm': 4, 's2': 120, 'sweep': 0, 'midsweep': 0},
             'thorough': {'s1': 8000, 'm': 8, 's2': 3000, 'sweep': 48, 'midsweep': 12}},
     'C13': {'quick': {'s3': 700}, 'thorough': {'s3enum': 40, 's3': 4000}},
-    'C19': {'quick': {'s4': 600, 's1': 120, 'm': 2, 'vanish': 80},
-            'thorough': {'s4enum': 400, 's4': 20000, 's1': 3000, 'm': 3, 'vanish': 2000}},
+    'C19': {'quick': {'s4': 600, 's1': 120, 'm': 2, 'vanish': 80, 's3': 60},
+            'thorough': {'s4enum': 400, 's4': 20000, 's1': 3000, 'm': 3, 'vanish': 2000,
+                         's3': 2000}},
     'C20': {'quick': {'s2': 500}, 'thorough': {'s2': 12000, 's2enum': 40}},
 }
 
